@@ -272,7 +272,18 @@ def _decoder(ctx: Ctx) -> dict[str, Any] | None:
                                               type_ignores=[]))
                if isinstance(t, ast.Name) and isinstance(t.ctx, ast.Store)
                and t.id == dvar]
-    if home is not None and len(brks) == 1 and not day_loop.orelse \
+    # `for day ...: ... else:` runs when no day was free; leaving the game
+    # loop there drops every later game, going on is what no `else` does
+    else_leaves = any(isinstance(x, (ast.Break, ast.Return, ast.Raise))
+                      for s_ in day_loop.orelse for x in ast.walk(s_))
+    else_harmless = all(isinstance(s_, (ast.Pass, ast.Continue))
+                        for s_ in day_loop.orelse)
+    if else_leaves:
+        detail = ("when no day is free for a game the decoding stops "
+                  "altogether (`else` of the day scan leaves the loop over "
+                  "the games): the games that follow in the permutation are "
+                  "lost although they may still fit")
+    if home is not None and len(brks) == 1 and else_harmless \
             and not rebinds:
         ch = Poly.atom(("cell", "y", (day, home)))
         ca = Poly.atom(("cell", "y", (day, away)))
